@@ -174,6 +174,21 @@ func (rr *routingRun) checkTSR(p world.Probe, rawPath, rawQuery, where string) {
 	}
 }
 
+// checkCandidateOn asks only the first question of checkTSR (which route, flag and parameters) of another reader.
+func (rr *routingRun) checkCandidateOn(rd world.Reader, p world.Probe, where string) {
+	mA := rr.set.Match(p.Method, p.Host, p.Path, model.MatchOpts{})
+	mB := rr.set.Match(p.Method, p.Host, p.Path, model.MatchOpts{AllowLeadingSlashCapture: true})
+	amb := fmtMatch(mA) != fmtMatch(mB)
+	rr.res.Checks++
+	lk := world.ObsLookup(rd, p)
+	ans := lookupAnswer{tag: lk.Tag, tsr: lk.TSR, params: world.FmtParams(lk.Params), hasPar: true}
+	if ans.same(mA) || (amb && ans.same(mB)) || (amb && lk.Tag >= 0 && leadingSlashValue(lk.Params)) {
+		rr.res.inc("candidates_checked_inside_write_txn")
+		return
+	}
+	rr.res.fail("C08/wrong-candidate", "%s", rr.tsrDetail(p, "", "", where, "Txn.Lookup", lk.String(), fmtMatch(mA)))
+}
+
 func (rr *routingRun) lookupRaw(p world.Probe, rawPath string) world.RouteObs {
 	req := world.NewRequest(p.Method, p.Host, p.Path, rawPath, "", nil)
 	rt, cc, tsr := rr.w.R.Lookup(world.NewRW(world.NewConn()), req)
@@ -394,7 +409,7 @@ func (rr *routingRun) knownTSR(p world.Probe, matchPath string, ans lookupAnswer
 }
 
 // the last four are clean in their escaped form while their decoding is not (an escaped slash next to a real one, escaped dot segments)
-var reservedValues = []string{"https:evil.com", "a%3Fb", "a%23b", "a%25b", "a%20b", "%C3%A9", "a:b", ":42", ":", "x%2Fy", "a%2F", "%2Fb", "%2E%2E", "%2E"}
+var reservedValues = []string{"https:evil.com", "a%3Fb", "a%23b", "a%25b", "a%20b", "%C3%A9", "a:b", ":42", ":", "..cache", "...", "..42", "x%2Fy", "a%2F", "%2Fb", "%2E%2E", "%2E"}
 
 func runC08(src sim.Source, o Opts) *Result {
 	res := newResult()
@@ -449,6 +464,25 @@ func runC08(src sim.Source, o Opts) *Result {
 			}
 			probeKeys = append(probeKeys, fmt.Sprint(p, rawPath, rawQuery))
 			rr.checkTSR(p, rawPath, rawQuery, fmt.Sprintf("round %d", r))
+			if !res.failed() && rawPath == "" && src.Intn("txnview", 6) == 5 {
+				// the same question asked through an open write transaction that has registered further routes (its
+				// lookups run on contexts sized for the committed tree): route, flag and parameters of the candidate
+				txn := rr.w.R.Txn(true)
+				saved := rr.set
+				rr.set = rr.set.Clone()
+				okOps := true
+				for k, n := 0, 1+src.Intn("txnwrites", 3); k < n && okOps; k++ {
+					rr.nextTag++
+					op := genWOp(src, rr.pool, rr.f.methods, rr.nextTag, false, 0)
+					op.Kind = "handle"
+					okOps = sameOut(applyFox(rr.w, txn, rr.pool, op), applyModel(rr.set, rr.cfg, rr.pool, op))
+				}
+				if okOps {
+					rr.checkCandidateOn(txn, p, fmt.Sprintf("round %d (inside a write txn with uncommitted routes)", r))
+				}
+				txn.Abort()
+				rr.set = saved
+			}
 			if !res.failed() && src.Intn("metamorphic", 6) == 5 {
 				rr.checkIrrelevance(p, rawPath, rawQuery)
 			}
